@@ -354,6 +354,8 @@ class MinFlowDecompCycles(walkmodel.AbstractWalkModelDiGraph):
             subset_constraints=self.subset_constraints,
             subset_constraints_coverage=self.subset_constraints_coverage,
             elements_to_ignore=self.edges_to_ignore,
+            additional_starts=self.additional_starts,
+            additional_ends=self.additional_ends,
             optimization_options=given_weights_optimization_options,
             solver_options=given_weights_kfd_solver_options,
             )
